@@ -769,7 +769,8 @@ class CtxEngine(object):
     def run_items(self, ctl, stack, depth, budget):
         """Run a drawn sequence of items inside the current block."""
         t = self.t
-        n = 1 + t.draw(3)
+        # (the body of a block may be empty)
+        n = 1 + t.draw(3) if depth == 0 else t.draw(4)
         for _ in range(n):
             if budget[0] <= 0:
                 return
